@@ -28,13 +28,26 @@ def fname(idx):
 
 
 def item_text(c, k):
-    return c["texts"][k].replace("fn f{i}", "fn " + fname(k + 1)).replace("{i}", str(k + 1)).replace("{n}", str(int(c["case"])))
+    return c["texts"][k].replace("fn f{i}", "fn " + fname(k + 1)).replace("{i}", str(k + 1)).replace("{n}", str(int(c["case"].lstrip("w")) + (500000 if c.get("assembled") else 0)))
+
+
+# templates whose text is one syntactically complete item (what a `$i:item` matcher accepts) without macro definitions of its own
+FRAGMENT_OK = {"pubfn", "privfn", "cratefn", "superasync", "selffn", "pubinfn", "unsafefn", "externfn", "constfn", "allquals", "docfn",
+               "fnimpl", "wherefn", "privasync", "privconst", "struct", "tstruct", "ustruct", "enum", "implblk", "pubmod", "pubuse",
+               "pubconst", "pubstatic", "pubtype", "constbrace", "cfgfn"}
 
 
 def render(c):
-    n = int(c["case"])
+    n = int(c["case"].lstrip("w"))
     tvis = TVIS[n % len(TVIS)]
     items = "\n    ".join(item_text(c, k) for k in range(len(c["body"])))
+    if c.get("assembled"):
+        # the same module, assembled by a macro_rules! macro: every item reaches the entrait invocation as an `$i:item`
+        # fragment, i.e. wrapped in an invisible group
+        head = (f"macro_rules! asm {{ ($($i:item)*) => {{\n    #[::entrait::entrait({tvis}T)]\n    pub mod m {{ $($i)* }}\n}}; }}\n"
+                f"asm! {{\n    {items}\n}}\n")
+    else:
+        head = f"#[::entrait::entrait({tvis}T)]\npub mod m {{\n    {items}\n}}\n"
     calls = []
     for idx in c["truth"]:
         q = c["quals"][idx - 1]
@@ -46,11 +59,7 @@ def render(c):
         if "u" in q:
             call = f"unsafe {{ {call} }}"
         calls.append(call)
-    return f"""#[::entrait::entrait({tvis}T)]
-pub mod m {{
-    {items}
-}}
-pub fn run() -> Vec<u32> {{
+    return f"""{head}pub fn run() -> Vec<u32> {{
     let app = ::entrait::Impl::new(());
     let r = vec![{", ".join(calls)}];
     r
@@ -80,6 +89,8 @@ def observe(c, recs, dropped, rt):
         o["diag"] = [d["code"] + ": " + d["message"][:140] for d in dropped[cid]][:3]
     if cid in rt:
         o["reached"] = rt[cid]
+    if c.get("assembled"):
+        return o, []
     # kinds of the module body as the hook saw it (B3)
     inp = rec["input"]
     op = inp.index("G{")
@@ -95,6 +106,12 @@ def main():
                              actions=["BeginItem", "ParseSigThenBodyOrSemi", "ScanToBraceOrSemi", "EatTrailingSemis", "Finish"],
                              workers=12, heap="12g")
     cases = [c for c in cases if c["mode"] == "mod"]
+    # macro-assembled twins (spec/Items.tla, "fragments"): the split of a body of wrapped items is the split of the body
+    twins = [dict(c, case="w" + c["case"], assembled=True, twin_of=c["case"]) for c in cases
+             if c["body"] and len(c["body"]) <= 2 and set(c["body"]) <= FRAGMENT_OK]
+    if not thorough:
+        twins = twins[::2]
+    cases = cases + twins
     crate = vf.Crate(os.path.join(chk.work, "crate"), "c08cases", deps=["vt"])
     crate.prelude = PRELUDE
     for c in cases:
@@ -117,8 +134,12 @@ def main():
             rt[j["case"]] = j["r"]
     by_case, _ = vf.records_by_case(chk, first_dump)
     events = []
+    kinds_of_case = {}
     for c in cases:
         o, kinds = observe(c, by_case.get(c["case"]), dropped, rt)
+        if c.get("assembled"):
+            kinds = kinds_of_case[c["twin_of"]]       # (B3 is about the renderer's item texts: those of the plain twin)
+        kinds_of_case[c["case"]] = kinds
         l1 = {"truth": [fname(i) for i in c["truth"]], "ids": list(c["truth"])}
         cls = ""
         events.append({"case": c["case"], "l1": l1, "obs": o, "pred": {"mnames": [fname(i) for i in c["pred"]]},
@@ -127,9 +148,11 @@ def main():
     ev = {e["case"]: e for e in events}
     chk.cov["evaluations"] = len(events)
     chk.cov["distinct_nontrivial"] = sum(1 for c in cases if len(c["body"]) > 0)
+    chk.cov["macro_assembled_twins"] = len(twins)
     chk.cov["rule"] = (f"every module body of <= {3 if thorough else 2} items from the {42}-template catalogue of spec/Items.tla "
                        "(every visibility x qualifier combination of fns, private fns, consts/statics with brace initialisers, "
-                       "structs, impls, nested mods, extern blocks, macros, uses, types); non-trivial = non-empty body")
+                       "structs, impls, nested mods, extern blocks, macros, uses, types); plus, for bodies of <= 2 plain items, the same module assembled by a macro_rules! macro "
+                       "(every item an `$i:item` fragment); non-trivial = non-empty body")
     chk.cov["exhaustive"] = True
     chk.cov["build_iterations"] = iters
     chk.cov["rejected_by_rustc"] = len(dropped)
